@@ -99,6 +99,16 @@ class TapeRecorder:
     add = __add__ = __radd__ = partialmethod(binary_operator, operator='add')
     sub = __sub__ = partialmethod(binary_operator, operator='sub')
     def __rsub__(self, other): return other + (-self)
+
+    def reflected_operator(self, other, operator: str):
+        # `other op self` with a plain number on the left: the number is the scalar multivector.
+        scalar = self.__class__(algebra=self.algebra, expr=f'({other},)', keys=(0,))
+        return scalar.binary_operator(self, operator=operator)
+
+    __ror__ = partialmethod(reflected_operator, operator='ip')
+    __rand__ = partialmethod(reflected_operator, operator='rp')
+    __rrshift__ = partialmethod(reflected_operator, operator='sw')
+    __rmatmul__ = partialmethod(reflected_operator, operator='proj')
     __truediv__ = div = partialmethod(binary_operator, operator='div')
 
     def __pow__(self, power, modulo=None):
